@@ -2,6 +2,7 @@
 descriptions, the XML corpus, the bundled Linux snapshots and x86 CPUID dumps
 (unpacked per run under a scratch directory which the caller removes)."""
 import os
+import re
 import shutil
 import subprocess
 import tempfile
@@ -88,18 +89,51 @@ def snapshots(kind):
 class Scratch:
     """Scratch directory for unpacked snapshots, removed on exit."""
 
-    def __init__(self):
+    def __init__(self, cache=False):
+        """cache=True: snapshots are unpacked once into build/snapcache/<name>-<hash of the tarball> and reused by
+        later runs (for checks that only READ them); the default is a private copy removed on exit."""
         self.dir = tempfile.mkdtemp(prefix="hwv-snap-", dir=os.environ.get("TMPDIR", "/tmp"))
+        self.cache = cache
+
+    def _unpack_cached(self, tarball):
+        import hashlib, fcntl
+        name = os.path.basename(tarball)[:-8]
+        h = hashlib.sha1(open(tarball, "rb").read()).hexdigest()[:12]
+        kind = os.path.basename(os.path.dirname(tarball))
+        root = os.path.join(C.BUILD, "snapcache")
+        os.makedirs(root, exist_ok=True)
+        dst = os.path.join(root, "%s-%s-%s" % (kind, name, h))
+        if not os.path.exists(os.path.join(dst, ".done")):
+            with open(dst + ".lock", "w") as lf:
+                fcntl.flock(lf, fcntl.LOCK_EX)
+                if not os.path.exists(os.path.join(dst, ".done")):
+                    shutil.rmtree(dst, ignore_errors=True)
+                    for n in os.listdir(root):      # an older version of the same tarball
+                        if re.fullmatch(re.escape("%s-%s-" % (kind, name)) + "[0-9a-f]{12}", n) and n != os.path.basename(dst):
+                            shutil.rmtree(os.path.join(root, n), ignore_errors=True)
+                    os.makedirs(dst)
+                    subprocess.run(["tar", "xjf", tarball, "-C", dst], check=True)
+                    open(os.path.join(dst, ".done"), "w").close()
+        return dst
 
     def unpack(self, tarball):
         name = os.path.basename(tarball)[:-8]
-        dst = os.path.join(self.dir, name)
-        if not os.path.isdir(dst):
-            os.makedirs(dst)
-            subprocess.run(["tar", "xjf", tarball, "-C", dst], check=True)
+        if self.cache:
+            dst = self._unpack_cached(tarball)
+        else:
+            dst = os.path.join(self.dir, name)
+            if not os.path.isdir(dst):
+                os.makedirs(dst)
+                subprocess.run(["tar", "xjf", tarball, "-C", dst], check=True)
         subs = [os.path.join(dst, n) for n in os.listdir(dst)]
         subs = [s for s in subs if os.path.isdir(s)]
         return subs[0] if len(subs) == 1 else dst
+
+    def unpack_all(self, tarballs):
+        """Unpack several snapshots concurrently (tar + bzip2 are the slow part of case generation)."""
+        import concurrent.futures as cf
+        with cf.ThreadPoolExecutor(max_workers=os.cpu_count() or 4) as ex:
+            list(ex.map(self.unpack, list(tarballs)))
 
     def close(self):
         shutil.rmtree(self.dir, ignore_errors=True)
